@@ -11,7 +11,7 @@ PLAN = dict(
          "batched library path on the same input, compares each output with the reference and decrypts the fused ciphertext again. "
          "stream: histories on ONE mode object, mode x direction x partition kind (unit-at-a-time, batch-boundary sizes +-1, random, "
          "random with empty calls, two calls, head/body/tail) x length list, output compared with the one-call reference after every "
-         "call, each call from its own guarded buffers (hi / lo / misaligned with another offset pair per call), alternately in place. Keys, IVs, data and cut points come from the case PRNG. "
+         "call, each call from its own guarded buffers (hi / lo / misaligned with another offset pair per call), alternately in place. setiv: histories on one CBC / BC / OFBNLF object with SetIV between segments of 1..40 blocks (fused and generic path; the caller's IV slice is overwritten after SetIV returned): every segment must equal the definition applied to that segment under the IV set last. Keys, IVs, data and cut points come from the case PRNG. "
          "Non-trivial = non-empty message; distinct = distinct class keys (configuration | workload / mode / direction / "
          "[partition kind] / whole-block count bucket (0,1,2-3,4-7,8-15,16-31,32-63,64-65,long) / tail size len mod 16 / IV kind / "
          "alias mode / placement hi|lo|mis; plus mis / mode / direction / block bucket / src offset)",
@@ -20,6 +20,8 @@ PLAN = dict(
         J("c03.oneshot", configs=["purego"], variant="purego", shards=(2, 16), floor=100000),
         J("c03.stream", configs=_ASM, variant="asm", shards=(2, 8), floor=20000),
         J("c03.stream", configs=["purego"], variant="purego", shards=(2, 8), floor=20000),
+        J("c03.setiv", configs=_ASM, variant="asm", shards=(1, 2), floor=100),
+        J("c03.setiv", configs=["purego"], variant="purego", shards=(1, 2), floor=100),
         # thorough only: race build (implies checkptr) over the assembly-backed paths
         dict(J("c03.oneshot", configs=["avx2"], variant="race", shards=(1, 16)), thorough_only=True),
         dict(J("c03.stream", configs=["avx2"], variant="race", shards=(1, 8)), thorough_only=True),
